@@ -357,23 +357,83 @@ Proof.
       apply (check_float64_res Cast x v g Hxc HxR); [exact Hnf | exact Hf | discriminate].
 Qed.
 
-(* ---- all payloads of a case ----------------------------------------------------------------------- *)
+(* ---- all payloads of a case, through the run-length encoding --------------------------------------- *)
 
-Lemma check_list_flat_map : forall cfg o s t lo hi ps,
+Fixpoint expand (L : list (nat * (Z * Z))) : list (Z * Z) :=
+  match L with [] => [] | e :: t => repeat (snd e) (fst e) ++ expand t end.
+
+Lemma pair_eqb_eq : forall a b, pair_eqb a b = true -> a = b.
+Proof.
+  intros [a1 a2] [b1 b2] H. unfold pair_eqb in H. cbn [fst snd] in H.
+  apply andb_true_iff in H as [H1 H2]. apply Z.eqb_eq in H1. apply Z.eqb_eq in H2. congruence.
+Qed.
+
+Lemma rle_expand : forall l, expand (rle l) = l.
+Proof.
+  induction l as [|x r IH]; [reflexivity|]. cbn [rle].
+  destruct (rle r) as [|[n y] t] eqn:E.
+  - cbn in IH. subst r. reflexivity.
+  - destruct (pair_eqb x y) eqn:Exy.
+    + apply pair_eqb_eq in Exy. subst y. cbn [expand fst snd repeat] in *. rewrite <- IH. reflexivity.
+    + cbn [expand fst snd repeat app] in *. rewrite <- IH. reflexivity.
+Qed.
+
+Lemma rle_pos : forall l, Forall (fun e => (0 < fst e)%nat) (rle l).
+Proof.
+  induction l as [|x r IH]; [constructor|]. cbn [rle].
+  destruct (rle r) as [|[n y] t] eqn:E.
+  - repeat constructor.
+  - inversion IH as [|? ? H1 H2]; subst. destruct (pair_eqb x y); repeat constructor; cbn [fst] in *; try lia; assumption.
+Qed.
+
+Fixpoint check_pairs (o : op) (s t : ty) (ps : list Z) (l : list (Z * Z)) : bool :=
+  match ps, l with
+  | [], [] => true
+  | p :: ps', x :: l' => check1 o s t p (fst x) (undelta (fst x) p (snd x)) && check_pairs o s t ps' l'
+  | _, _ => false
+  end.
+
+Lemma check_rle_expand : forall o s t ps k tc d L,
+  Forall (fun e => (0 < fst e)%nat) L ->
+  check_rle o s t ps (Z.of_nat k) tc d (flatten3 L) = check_pairs o s t ps (repeat (tc, d) k ++ expand L).
+Proof.
+  intros o s t ps. induction ps as [|p ps IH]; intros k tc d L HL.
+  - cbn [check_rle check_pairs]. destruct k as [|k].
+    + cbn [repeat app Z.of_nat Z.eqb andb]. destruct L as [|[n x] L']; [reflexivity|].
+      inversion HL as [|? ? Hn _]; subst. cbn [fst] in Hn. destruct n as [|n]; [lia|]. reflexivity.
+    + replace (Z.of_nat (S k) =? 0) with false by (symmetry; apply Z.eqb_neq; lia). reflexivity.
+  - cbn [check_rle]. destruct k as [|k].
+    + cbn [Z.of_nat Z.ltb Z.compare repeat app].
+      destruct L as [|[n [tc' d']] L']; [reflexivity|].
+      inversion HL as [|? ? Hn HL']; subst. cbn [fst] in Hn. destruct n as [|n]; [lia|].
+      cbn [flatten3 flat_map fst snd app expand repeat check_pairs].
+      replace (0 <? Z.of_nat (S n)) with true by (symmetry; apply Z.ltb_lt; lia). cbn [andb].
+      replace (Z.of_nat (S n) - 1) with (Z.of_nat n) by lia.
+      fold (flatten3 L'). rewrite (IH n tc' d' L' HL'). reflexivity.
+    + replace (0 <? Z.of_nat (S k)) with true by (symmetry; apply Z.ltb_lt; lia).
+      replace (Z.of_nat (S k) - 1) with (Z.of_nat k) by lia.
+      rewrite (IH k tc d L HL). reflexivity.
+Qed.
+
+Lemma undelta_delta : forall tc p w, undelta tc p (delta tc p w) = w.
+Proof. intros tc p w. unfold undelta, delta. destruct (is_int_code tc); lia. Qed.
+
+Lemma check_pairs_enc : forall cfg o s t lo hi ps,
   cfg_ok cfg = true -> tgt_ok t = true -> src_range s = Some (lo, hi) ->
   Forall (fun p => lo <= p <= hi) ps ->
-  check_list o s t ps (flat_map (run1 cfg o s t) ps) = true.
+  check_pairs o s t ps (map (enc1 cfg o s t) ps) = true.
 Proof.
   intros cfg o s t lo hi ps Hok Ht Hr Hps. induction Hps as [|p ps Hp _ IH]; [reflexivity|].
-  cbn [flat_map]. destruct (run1_check1 cfg o s t p lo hi Hok Ht Hr Hp) as (tc & w & E & Hc).
-  rewrite E. cbn [app check_list]. rewrite Hc, IH. reflexivity.
+  cbn [map check_pairs]. destruct (run1_check1 cfg o s t p lo hi Hok Ht Hr Hp) as (tc & w & E & Hc).
+  rewrite IH. unfold enc1. rewrite E. cbn [pair_of fst snd]. rewrite undelta_delta, Hc. reflexivity.
 Qed.
 
 Theorem oracle_holds_cfg : forall cfg c, cfg_ok cfg = true -> valid c -> oracle c (run_with cfg c) = true.
 Proof.
   intros cfg c Hok [Ht Hv]. unfold oracle, run_with.
   destruct (src_range (c_src c)) as [[lo hi]|] eqn:Hr; [|contradiction].
-  apply (check_list_flat_map cfg _ _ _ lo hi); assumption.
+  rewrite (check_rle_expand _ _ _ _ 0%nat 0 0 _ (rle_pos _)). cbn [repeat app].
+  rewrite rle_expand. apply (check_pairs_enc cfg _ _ _ lo hi); assumption.
 Qed.
 
 Theorem oracle_holds : forall c, valid c -> known c = 0 -> oracle c (run c) = true.
